@@ -4,7 +4,9 @@
    bit 0: model (LW.Sec.EndToEnd) differs from the observed behaviour;
    bit 1: the property fails on the observed behaviour:
      - pipeline: the frame is a valid data frame (spec_valid_data) but the
-       receiver did not obtain exactly its commands and payload;
+       receiver did not obtain exactly its commands and payload, or the
+       model's receiver (proved equal to the specification transforms) does
+       not obtain them from the bytes the implementation sent;
      - tamper: the validation result is not (carried MIC = specification MIC
        of the received bytes under the receiver's keys, counter, parameters
        and role), the specification MIC being computed from the raw bytes. *)
@@ -61,15 +63,20 @@ Definition check (c : case) : N :=
   match c with
   | CPipe ver k prm f o_tx o_rx =>
     let full := match pl f with PLMac m => fcnt (hdr m) | _ => 0 end in
+    (* the model's (= specification's) receiver run on the bytes the implementation sent *)
+    let rx := match o_tx with Ok bs => Some (receiver_frame reg ver k prm full bs) | _ => None end in
     code (oeqb (sender ver k prm f) o_tx
-          && match o_tx with
-             | Ok bs => outcome_eqb rx_eqb (receiver_frame reg ver k prm full bs) o_rx
-             | _ => true
-             end)
+          && match rx with Some r => outcome_eqb rx_eqb r o_rx | None => true end)
          (if spec_valid_data reg f
           then is_ok o_tx
                && match o_rx with
                   | Ok (RxFrame q) => content_eqb (content_of_frame q) (commands_and_payload f)
+                  | _ => false
+                  end
+               (* interoperability: a specification-conformant peer recovers the content from the sent bytes
+                  (a sender and receiver that deviate in the same way do not hide each other) *)
+               && match rx with
+                  | Some (Ok (RxFrame q)) => content_eqb (content_of_frame q) (commands_and_payload f)
                   | _ => false
                   end
           else negb (is_panic o_tx) && negb (is_panic o_rx))
